@@ -60,11 +60,16 @@ func ApplyClusterChanges(config *model.ClusterConfig, currentStatus *model.Clust
 			ReplicationFactor: nc.ReplicationFactor,
 		}
 
+		// A namespace is added with all of its shards or not at all: without one of
+		// them its shards would not cover the hash space
+		serverIdx := newStatus.ServerIdx
+		complete := true
 		for _, shard := range sharding.GenerateShards(newStatus.ShardIdGenerator, nc.InitialShardCount) {
 			var esm []model.Server
 			if esm, err = ensembleSupplier(&nc, newStatus); err != nil {
 				slog.Error("failed to select new ensembles.", slog.Any("shard", shard), slog.Any("error", err))
-				continue
+				complete = false
+				break
 			}
 			shardMetadata := model.ShardMetadata{
 				Status:   model.ShardStatusUnknown,
@@ -79,7 +84,16 @@ func ApplyClusterChanges(config *model.ClusterConfig, currentStatus *model.Clust
 
 			nss.Shards[shard.Id] = shardMetadata
 			newStatus.ServerIdx = (newStatus.ServerIdx + nc.ReplicationFactor) % uint32(len(config.Servers))
-			shardsToAdd[shard.Id] = nc.Name
+		}
+		if !complete {
+			// Leave the namespace out: it is created by a later update, once an
+			// ensemble can be selected for each of its shards
+			newStatus.ServerIdx = serverIdx
+			continue
+		}
+
+		for shardId := range nss.Shards {
+			shardsToAdd[shardId] = nc.Name
 		}
 		newStatus.Namespaces[nc.Name] = nss
 
